@@ -2,6 +2,6 @@
 # confirm_tests_queue.sh <worktree> <patch>...  : for each patch run the pinned suite in the scratch worktree; log summary lines
 wt=$1; shift
 for p in "$@"; do
-  cd $wt && git checkout -q -- EoN && git apply $p && r=$(PYTHONPATH=$wt timeout 3000 /venv/bin/python -W ignore -m pytest -q -p no:cacheprovider --timeout=900 --continue-on-collection-errors -n 5 EoN/tests 2>&1 | tail -1); git checkout -q -- EoN
+  cd $wt && git checkout -q -- EoN && git apply $p && r=$(PYTHONPATH=$wt timeout 3000 /venv/bin/python -W ignore -m pytest -q -p no:cacheprovider --timeout=900 --continue-on-collection-errors -n 4 EoN/tests 2>&1 | tail -1); git checkout -q -- EoN
   echo "$p :: $r" >> /tmp/mut/tests_confirmed.log
 done
